@@ -121,6 +121,15 @@ impl Subscriber {
     pub fn notify(&self, key: ConfigKey) {
         if let Some(conn_manage) = &self.conn_manage {
             if let Some(set) = self.listener.get(&key) {
+                #[cfg(rnacos_verif)]
+                crate::verif_hook::tap(
+                    "config_notify",
+                    format!(
+                        "{}|{}",
+                        key.build_key(),
+                        set.iter().map(|e| e.as_str()).collect::<Vec<_>>().join(",")
+                    ),
+                );
                 conn_manage.do_send(BiStreamManageCmd::NotifyConfig(key, set.clone()));
             }
         }
